@@ -211,7 +211,7 @@ func checkCanSkipBlockSource(p *core.Prog, r *core.Report) {
 	r.Check(clockCmp && single, "C01.R3", "canSkipExecution/never-skip", "the executor never skips a module whose only value input is the clock or whose single input is params (the conditions canSkipBlockSource mirrors)", fmt.Sprintf("clock condition=%v single-params condition=%v", clockCmp, single), p.Pos(cse.Pos()))
 	// modules with cached outputs are ignored, and without any cached output nothing is skipped
 	okCached, okEmpty := false, false
-	core.Instrs(fn, func(in ssa.Instruction) {
+	core.InstrsDeep(fn, func(in ssa.Instruction) {
 		ifi, ok := in.(*ssa.If)
 		if !ok {
 			return
